@@ -8,17 +8,26 @@ MCVerifiersBoth == {"S", "S2"}
 MCPlaces3 == {<<"S", "h1">>, <<"S", "h2">>, <<"S2", "h1">>}
 MCPlaces4 == {<<"S", "h1">>, <<"S", "h2">>, <<"S2", "h1">>, <<"S2", "h2">>}
 MCPlacesS == {<<"S", "h1">>, <<"S", "h2">>}
+MCPlaces1 == {<<"S", "h1">>}
+\* S at h1, the other server at the alias name
+MCPlacesAlias == {<<"S", "h1">>, <<"S2", "h1a">>}
+MCNoAlias == {}
+MCAlias == {"h1a"}
+MCCliAll == {"h1", "h2"}
+MCCliAlias == {"h1", "h1a"}
 
 \* compact JSON-able projection of the VIEW'd state (every printed edge carries two of them):
 \* << now, opaques as tuples, signatures as tuples, client session, sessions started, client nonces >>
 OpT(o) == <<o.mac, o.tok, o.cpk, o.pid, o.ch, o.host, o.t>>
 SgT(g) == <<g.key, g.kind, g.ch, g.pub, g.host>>
-St == << now, {OpT(o) : o \in ops}, {SgT(g) : g \in sigs}, <<cli.st, cli.host, cli.chS, cli.spk>>, ncli, cn >>
+St == << now, {OpT(o) : o \in ops}, {SgT(g) : g \in sigs}, <<cli.st, cli.host, cli.chS, cli.spk>>, ncli, cn,
+         {<<e.host, e.spk, e.chS>> : e \in cache} >>
 \* the op record with its blobs and signatures as tuples
 OpJ(r) == [x \in DOMAIN r |-> IF x = "o" THEN OpT(r[x]) ELSE IF x \in {"sig", "signed"} THEN SgT(r[x]) ELSE r[x]]
 EmitEdge == PrintT(<<"VFEDGE", ToJson([s |-> St, op |-> OpJ(op'), t |-> St'])>>)
 Conf == [maxt |-> MaxT, chalttl |-> ChalTTL, tokttl |-> TokTTL, maxmint |-> MaxMint, maxtok |-> MaxTok,
          maxcli |-> MaxCli, s2samekey |-> S2SameKey, verifiers |-> Verifiers, explicit |-> Explicit,
-         chost |-> CHost, rich |-> Rich]
+         chost |-> CHost, rich |-> Rich,
+         alias |-> AliasHosts]
 MCInit == Init /\ PrintT(<<"VFINIT", ToJson(St)>>) /\ PrintT(<<"VFCONF", ToJson(Conf)>>)
 =============================================================================
